@@ -381,6 +381,12 @@ def _mk_nary(op, xs):
     rest.sort(key=_sort_key)
     if len(rest) == 1:
         return rest[0]
+    if op == '&' and len(rest) == 2:
+        # x & (2**k - 1)  ==  x % 2**k   (Python integers, either sign)
+        for m_, x_ in ((rest[0], rest[1]), (rest[1], rest[0])):
+            if m_[0] == 'lin' and m_[1] == -1 and len(m_[2]) == 1 and m_[2][0][1] == 1 and m_[2][0][0][0] == 'bin' and \
+                    m_[2][0][0][1] == '**' and m_[2][0][0][2] == ('const', 2) and not _has_str(x_):
+                return ('bin', '%', x_, m_[2][0][0])
     return ('nary', op, tuple(rest))
 
 
